@@ -1040,6 +1040,9 @@ pub fn run_program(prog: &Value, w: &mut dyn std::io::Write) -> u64 {
                 if name == "clock" {
                     ev.insert("clk".into(), json!(clock.0.get()));
                 }
+                if let Some(t) = op.get("tag") {
+                    ev.insert("tag".into(), t.clone());
+                }
 
                 let hung = dev.0.borrow().budget_tripped;
                 finish_event(&mut ev, &dev, &geo, &cfg, &dopts, &mut out, if panicked || hung { None } else { Some(&fs) }, &clock);
